@@ -32,18 +32,33 @@ SHRINK_BUDGET = 80
 BACKENDS = ("select", "poll", "epoll")
 
 RULE = ("seeded random scripts of 1..16 descriptors (pipes, unix socket pairs, loopback TCP) with actions write / "
-        "half-close / close / add / shutdown-context / wakeup / exit executed from inside the loop's callbacks "
-        "(byte-threshold triggers, idle phases), each run on select, poll and epoll, with/without node pool, "
-        "hints_max_fd from exactly-fitting to too small; four streams: S (confluent class: agreement required), "
-        "X (S plus cross-context shutdown / racing exit: the known-finding class), C (capacity rejection), "
-        "R (unrestricted races: life-cycle and model tie only); a case is non-trivial when at least one read "
-        "callback with bytes and one close or clear callback occurred; distinct = distinct script text")
+        "half-close / close / RESET (a socket peer closing with SO_LINGER 0 or with unread data: the read behind the "
+        "pending data fails with ECONNRESET) / add / shutdown-context / wakeup / exit executed from inside the loop's "
+        "callbacks (byte-threshold triggers, idle phases, timer phases), each run on select, poll and epoll, with/without "
+        "node pool, hints_max_fd from exactly-fitting to too small and < 1 (default 8); streams: S (confluent class: "
+        "every byte delivered, terminated => closed, agreement; with flat / SW / SWT sub-streams), P (exit requested "
+        "BEFORE run with 0..16 contexts having pending input / closed peers: exactly one pass, agreement), T (timer of "
+        "interval 0 with scripted timer phases, each preceded by enough empty ticks for quiescence: kernel calls "
+        "returning n = 0, one tick after every pass, exit from the timer callback, S clauses), X (S plus cross-context "
+        "shutdown / racing exit, and pre-run exit with several descriptors reporting input and hang-up together: the "
+        "known-finding class, accepted only with per-context evidence), C (capacity rejection), R (unrestricted "
+        "races, also timer phases racing with the passes: life-cycle and model tie only), E (monitor-only edge "
+        "scenarios: each of the 64 subsets of the six callbacks left NULL x refused registrations - regular file on "
+        "epoll, second context on a registered descriptor on epoll, registration from a foreign thread - with the "
+        "loop's ctx_list and the tables handed to the kernel as observables); a case is non-trivial when at least "
+        "one read callback with bytes and one close or clear callback occurred; distinct = distinct script text")
 TRUSTED_BASE = [
-    "modelled, not verified: the kernel (readiness of pipes / unix / TCP sockets, level-triggered select and poll, "
-    "edge-triggered epoll ready list and its order, one report per registered fd per epoll_wait) - the model's kernel "
-    "function is compared with the logged reports on every run (Q lines); timers are not exercised",
+    "modelled, not verified: the kernel (readiness of pipes / unix / TCP sockets incl. reset connections, level-triggered "
+    "select and poll, edge-triggered epoll ready list and its order, one report per registered fd per epoll_wait) - the "
+    "model's kernel function is compared with the logged reports on every run (Q lines); timers: only interval 0 is "
+    "executed (a tick after every pass, the kernel call returning n = 0 when nothing is ready); the time source and "
+    "positive intervals are covered by the translator obligations only (gen_*_run_timer)",
     "harness: poll/select/epoll_wait/epoll_ctl are wrapped (-Wl,--wrap) to log; the wrapper's only intervention is the "
-    "idle wake-up (muggle_evloop_wakeup when the kernel has nothing to report), which starts the next script phase",
+    "idle wake-up (muggle_evloop_wakeup when the kernel has nothing to report), which starts the next script phase; "
+    "with a timer installed there is no intervention (n = 0 is passed through to the loop)",
+    "translator tie: lib/props/c13_slice.py (symbolic execution of the clang AST of the event-loop sources, run on every "
+    "check) and clang's AST dump; library calls outside the sliced functions (poll/select/epoll_wait as opaque kernel "
+    "calls, the linked list, the event signal, the time counter) are summarised by effect tokens",
 ]
 ASSUMPTIONS = [
     "add_ctx only from the loop thread, callbacks do not block, a context is added at most once (Appendix B)",
@@ -51,21 +66,47 @@ ASSUMPTIONS = [
     "single-threaded: to_exit status WAKE (cross-thread exit) is C14's",
 ]
 EVIDENCE_NOTES = [
+    "translator tie (second tie, every run): gen_params compiles harness/drivers/c13_params.c (constants, sizeof) and "
+    "slices 28 instances of the functions muggle_evloop_run_poll/_epoll/_select, muggle_evloop_add_ctx(_poll/_select/"
+    "_epoll), muggle_evloop_init(_poll/_epoll/_select), muggle_evloop_run and muggle_ev_ctx_read out of the C text "
+    "into coq/gen/Params_C13.v (nested Gallina ifs over effect-token lists); each gen_* term is proved equal to the "
+    "hand-written reference of C13/Decide.v by the shape-independent tactic ev_decide (C13/ProofsGen.v) and the "
+    "reference's per-event decision is proved to be the model's step (C13/ProofsGenModel.v: poll_step_is_dec, "
+    "ep_step_is_dec, sel_walk_is_dec, slot_remove_is_poll_remove, model_capacity_is_code).  Instances with a timer, "
+    "with every callback NULL, with read errors (muggle_ev_ctx_read: EINTR retried, EWOULDBLOCK not flagged, any other "
+    "error and end of file flag CLOSED), add_ctx from a foreign thread / failing set_nonblock / refusing back-end "
+    "(rollback of the list node), hints_max_fd < 1 (default 8).  A slicer failure is written as a comment in place of "
+    "the definition, so the obligation breaks",
     "evl_backends_agree is proved for the sub-class SWT of S (evl_backends_agree_partial / evl_swt_outcome): every "
     "read-callback trigger WRITES to, HALF-CLOSES or CLOSES some context's peer, or WAKES the loop (threshold >= 1, distinct "
     "trigger lines); a peer terminated from a callback gets all its callback-issued writes/terminators from one context "
     "(S's single-source condition) and the trigger list is then in threshold order (as the drivers order it); every other "
     "action (add, and again write / half-close / close / wake-up) is issued before run() or from an idle phase (wake "
-    "callback at quiescence), any number of phases, three descriptor kinds; no scripted exit or shutdown; adds fitting "
-    "hints_max_fd.  The specification fires, between two phases, the least fixpoint of 'registered and threshold reached by "
-    "the bytes written so far' (Kleene iteration, order-independent); a terminator is one more monotone fact (what reaches a "
-    "terminated peer is a prefix of its single source's action sequence).  A context whose peer is terminated while input is "
-    "pending is offered that input first by every back-end (EOF is only seen by reading behind the data): no divergence "
-    "there, the known class is unchanged.  SW (write-only triggers, any order: evl_backends_agree_sw) and the flat class are "
-    "special cases.  NOT proved (monitor-only): scripts of S with a trigger that shuts the ACTING context down at its "
-    "threshold, or a trigger that ADDS a context; for those the proved part is evl_backends_agree_visit and the monitor "
-    "checks agreement on every generated S script (220 per quick run incl. 20 flat, 30 SW and 30 SWT ones; 3200 per "
-    "thorough run); evl_backends_agree_refuted shows agreement fails outside S",
+    "callback at quiescence), any number of phases, three descriptor kinds; no scripted exit, shutdown or reset, no "
+    "timer; adds fitting hints_max_fd.  The boundary of that class is a theorem in both directions: "
+    "evl_swt_boundary_complete (swt sc = true iff none of 15 syntactic features occurs) and "
+    "evl_swt_boundary_witnesses (for 10 of the features a concrete script with exactly that one feature on which two "
+    "back-ends disagree: trigger exit, cross-context shutdown, early self-shutdown, threshold 0, unsorted triggers, "
+    "several sources, exit / shutdown from a phase, capacity, timer); for the other 5 (trigger add, self-shutdown "
+    "after everything was read, duplicate trigger lines, reset from a trigger or a phase) neither a proof nor a "
+    "counterexample is known: the examples agree (open_features_agree_on_examples) and the monitor checks agreement "
+    "on every generated S script",
+    "exit requested before muggle_evloop_run (seed C13-9): muggle_evloop_exit wakes the loop in both branches, so the "
+    "first kernel call returns and the loop performs EXACTLY ONE dispatch pass (evl_prerun_exit_one_pass); for the "
+    "class PRX (one phase, no triggers, no shutdown/reset, adds fitting, at most one registered descriptor reporting "
+    "input and hang-up together, no timer) the three back-ends agree and the outcome is closed-form "
+    "(evl_prerun_exit_outcome / evl_prerun_exit_agree); with two such descriptors the poll back-end's double "
+    "decrement stops above a ready slot (evl_prerun_exit_double_refuted, finding C13-prerun-exit-double.case)",
+    "known class cross-shutdown is accepted only with evidence computed from the three traces (_known_evidence, "
+    "patterns G1..G5): which back-end is the outlier, that input for the context was undelivered at the foreign "
+    "shutdown (or a write was skipped after it), that the full-delivery back-ends agree with each other; the outlier "
+    "is not always poll (findings C13-cross-shutdown-select.case, -order.case); a divergence on a context unrelated to "
+    "the shutdown / exit, or a back-end losing bytes it had no pending shutdown for, is reported",
+    "timers and read errors are inside the model's quantifier: scripts may install a timer (interval 0; ETimer, timer "
+    "phases, exit after the last) and reset a socket peer (AReset: IN | HUP | ERR, the read behind the pending data "
+    "flags the context: evl_read_error_flags); every life-cycle theorem is re-proved for such scripts; "
+    "evl_timer_tick_each_pass; the agreement classes exclude both (monitor: S scripts with resets and T scripts must "
+    "agree; a timer phase that runs before quiescence races with the passes - class R)",
     "evl_read_called_when_pending is proved for the three back-ends; for poll modulo the double decrement of n for an fd "
     "reporting POLLIN and POLLHUP together: read in this pass, or the slot is untouched and the context is reported readable "
     "again by the next kernel call (examples poll_double_decrement_skips_one_pass, read_poll_second_alternative): a delay, "
@@ -79,8 +120,119 @@ EVIDENCE_NOTES = [
     "repaired behaviour (evl_add_reject_remove_isolated, part 3)",
     "the node pool (use_mem_pool) grows on demand (muggle_memory_pool_alloc doubles), so hints_max_fd limits the number of "
     "contexts only in the poll back-end; select and epoll never refuse for capacity (observation)",
+    "edge scenarios (class E) have no model run (both drivers print EDGE; canon): their oracle is the Python monitor "
+    "alone - callbacks that are not installed never run, exit callback once and last, clear callback exactly for the "
+    "contexts left in ctx_list, a context whose end of file was read is removed from ctx_list and from the table handed "
+    "to the kernel WITH OR WITHOUT a close callback, a refused registration (regular file on epoll: EPERM, second "
+    "context on a registered descriptor: EEXIST, foreign thread) is rolled back (not in ctx_list, no callback, never "
+    "handed to the kernel), exit requested before run gives exactly one kernel call.  With a NULL read callback only "
+    "the life-cycle clauses are checked (nobody drains the descriptors; which back-end notices a hang-up then differs "
+    "by construction: the per-back-end decision is pinned by the gen_*_nocb obligations)",
 ]
 
+
+
+# second tie (translator kind): functions of the event-loop sources sliced into Gallina on every run
+_EV = "muggle/c/event/"
+CONST_FIELDS = [
+    ("k_pollin", "POLLIN"), ("k_pollhup", "POLLHUP"), ("k_pollerr", "POLLERR"), ("k_epin", "EPOLLIN"),
+    ("k_ephup", "EPOLLHUP"), ("k_eperr", "EPOLLERR"), ("k_epet", "EPOLLET"), ("k_ctl_add", "EPOLL_CTL_ADD"),
+    ("k_ctl_del", "EPOLL_CTL_DEL"), ("k_closed", "MUGGLE_EV_CTX_FLAG_CLOSED"), ("k_exit", "MUGGLE_EV_LOOP_EXIT_STATUS_EXIT"),
+    ("k_wake", "MUGGLE_EV_LOOP_EXIT_STATUS_WAKE"), ("k_eintr", "MUGGLE_SYS_ERRNO_INTR"),
+    ("k_ewouldblock", "MUGGLE_SYS_ERRNO_WOULDBLOCK"),
+    ("k_invalid_fd", "MUGGLE_INVALID_EVENT_FD"), ("k_fd_setsize", "FD_SETSIZE"),
+    ("k_sz_pollfd", "sizeof:struct pollfd"), ("k_sz_ptr", "sizeof:void *"), ("k_sz_epev", "sizeof:struct epoll_event"),
+    ("k_sz_list", "sizeof:muggle_linked_list_t"), ("k_sz_signal", "sizeof:muggle_event_signal_t"),
+]
+
+
+def gen_instances():
+    from props import c13_slice as S
+    P, E, SEL = _EV + "internal/event_loop_poll.c", _EV + "internal/event_loop_epoll.c", _EV + "internal/event_loop_select.c"
+    L, C = _EV + "event_loop.c", _EV + "event_context.c"
+    return [
+        ("gen_poll_run_2", P, S.poll_run(2, 1)),
+        ("gen_poll_run_3", P, S.poll_run(3, 0)),
+        ("gen_poll_run_timer", P, S.poll_run(1, 0, timer=True)),
+        ("gen_poll_run_nocb", P, S.poll_run(2, 0, cbs=())),
+        ("gen_add_ctx_poll", P, S.add_ctx_poll()),
+        ("gen_init_poll", P, S.init_poll()),
+        ("gen_epoll_run_none", E, S.epoll_run("none", [])),
+        ("gen_epoll_run_err", E, S.epoll_run("err", None)),
+        ("gen_epoll_run_c", E, S.epoll_run("c", ["C"])),
+        ("gen_epoll_run_s", E, S.epoll_run("s", ["S"])),
+        ("gen_epoll_run_cs", E, S.epoll_run("cs", ["C", "S"])),
+        ("gen_epoll_run_sc", E, S.epoll_run("sc", ["S", "C"])),
+        ("gen_epoll_run_cc", E, S.epoll_run("cc", ["C", "C"])),
+        ("gen_epoll_run_timer", E, S.epoll_run("timer", [], timer=True)),
+        ("gen_epoll_run_nocb", E, S.epoll_run("nocb", ["C", "S"], cbs=())),
+        ("gen_add_ctx_epoll", E, S.add_ctx_epoll()),
+        ("gen_init_epoll", E, S.init_epoll()),
+        ("gen_select_run_1", SEL, S.select_run(1)),
+        ("gen_select_run_2", SEL, S.select_run(2)),
+        ("gen_select_run_timer", SEL, S.select_run(0, timer=True)),
+        ("gen_select_run_nocb", SEL, S.select_run(1, cbs=())),
+        ("gen_add_ctx_select", SEL, S.add_ctx_select()),
+        ("gen_init_select", SEL, S.init_select()),
+        ("gen_loop_add_ctx", L, S.loop_add_ctx()),
+        ("gen_loop_run_2", L, S.loop_run(2)),
+        ("gen_loop_run_nocb", L, S.loop_run(2, cbs=())),
+        ("gen_loop_init", L, S.loop_init()),
+        ("gen_ctx_read", C, S.ctx_read()),
+    ]
+
+
+def gen_params(ctx):
+    """coq/gen/Params_C13.v: (i) the constants of the headers of this run (harness/drivers/c13_params.c compiled
+    against $VERIF_REPO), (ii) the per-event decision logic of the three back-ends, muggle_evloop_add_ctx and the
+    clear / exit epilogue, sliced out of the clang AST of the C text of this run (lib/props/c13_slice.py).  A function
+    that cannot be sliced is written as a comment, which breaks its gen_*_matches_model obligation."""
+    import leaftrans as L
+    from props import c13_slice as S
+    V.gen_config_header()
+    outdir = os.path.join(V.BUILD, ID)
+    os.makedirs(outdir, exist_ok=True)
+    exe = os.path.join(outdir, "params.%d" % os.getpid())
+    rc, out, err = V.sh([V.CC, "-std=gnu11", "-w", "-I" + V.REPO, "-I" + V.GEN_INC,
+                         os.path.join(V.VERIF, "harness/drivers/c13_params.c"), "-o", exe], timeout=120)
+    vals = {}
+    if rc == 0:
+        rc, out, err = V.sh([exe], timeout=20)
+        for ln in out.split("\n"):
+            k, _, v = ln.rpartition(" ")
+            try:
+                vals[k.strip()] = int(v)
+            except ValueError:
+                pass
+    try:
+        os.remove(exe)
+    except OSError:
+        pass
+    lines = ["(* generated by lib/props/c13.py (harness/drivers/c13_params.c, lib/props/c13_slice.py) from the headers and the",
+             "   event-loop sources of this run; do not edit *)",
+             "From Coq Require Import ZArith List Bool.", "From MV Require Import Lib.Leaf C13.Decide.",
+             "Import ListNotations.", "Local Open Scope Z_scope.", ""]
+    missing = [c for _, c in CONST_FIELDS if c not in vals]
+    if missing:
+        lines.append("(* constants not extracted (params program failed: %s): %s *)" % (
+            (err or "")[-200:].replace("*)", "* )"), ", ".join(missing)))
+    else:
+        lines.append("Definition code_consts : consts :=\n  {| " + ";\n     ".join(
+            "%s := %s" % (f, ("(%d)" % vals[c]) if vals[c] < 0 else "%d" % vals[c]) for f, c in CONST_FIELDS) + " |}.")
+    lines.append("")
+    consts = {k: v for k, v in vals.items() if not k.startswith("sizeof:")}
+    sizeofs = {k[7:]: v for k, v in vals.items() if k.startswith("sizeof:")}
+    flags = ["-std=gnu11", "-I" + V.REPO, "-I" + V.GEN_INC, "-DNDEBUG",
+             "-include", os.path.join(V.VERIF, "harness/c13_slice_shim.h")]
+    for gname, src, inst in gen_instances():
+        try:
+            text, _n = S.translate(os.path.join(V.REPO, src), flags, consts, sizeofs, inst, gname)
+            lines.append(text)
+        except L.LeafError as e:
+            lines.append("(* slicer error for %s: %s *)\n" % (gname, str(e).replace("*)", "* )")))
+        except Exception as e:      # a broken AST must break the obligation, not the machinery
+            lines.append("(* slicer failure for %s: %s: %s *)\n" % (gname, type(e).__name__, str(e)[:200].replace("*)", "* )")))
+    return "\n".join(lines) + "\n"
 
 
 def build_impl(ctx):
@@ -90,7 +242,7 @@ def build_impl(ctx):
     return V.build_driver(ID, C_DRIVER, REPO_SOURCES, "impl_driver", link_flags=LINK_FLAGS)
 
 
-ACT_KINDS = ("write", "hclose", "pclose", "add", "shut", "wake", "exit")
+ACT_KINDS = ("write", "hclose", "pclose", "add", "shut", "wake", "exit", "reset")
 
 
 # ----------------------------------------------------------------------------------------------
@@ -102,6 +254,8 @@ class Script:
         self.kinds = {}
         self.phases = [[]]
         self.trigs = []
+        self.timer = False
+        self.tphases = []
         for ln in lines:
             w = ln.split()
             if not w:
@@ -116,6 +270,8 @@ class Script:
                         self.pool = _int(tok[5:], 0)
                     elif tok.startswith("cls="):
                         self.cls = tok[4:]
+                    elif tok == "timer=1":
+                        self.timer = True
             elif w[0] == "ctx" and len(w) >= 3:
                 i = _int(w[1], -1)
                 if 1 <= i < 40:
@@ -126,6 +282,14 @@ class Script:
                 a = _act(w[1:])
                 if a:
                     self.phases[-1].append(a)
+            elif w[0] == "tphase":
+                self.tphases.append([])
+            elif w[0] == "tdo":
+                a = _act(w[1:])
+                if a:
+                    if not self.tphases:
+                        self.tphases.append([])
+                    self.tphases[-1].append(a)
             elif w[0] == "on" and len(w) >= 4:
                 c, b = _int(w[1], -1), _int(w[2], -1)
                 a = _act(w[3:])
@@ -133,6 +297,7 @@ class Script:
                     self.trigs.append((c, b, a))
         ok = lambda a: a[0] in ("wake", "exit") or a[1] in self.kinds  # noqa: E731
         self.phases = [[a for a in p if ok(a)] for p in self.phases]
+        self.tphases = [[a for a in p if ok(a)] for p in self.tphases]
         self.trigs = [t for t in self.trigs if ok(t[2])]
 
     def all_actions(self):
@@ -141,6 +306,9 @@ class Script:
                 yield ("phase", k, a)
         for c, b, a in self.trigs:
             yield ("trig", (c, b), a)
+        for k, p in enumerate(self.tphases):
+            for a in p:
+                yield ("phase", -1 - k, a)          # a timer phase: like a phase, not a read-callback trigger
 
     def features(self):
         """static reasons why the script is outside the confluent class S"""
@@ -159,8 +327,8 @@ class Script:
                     f.add("early-selfshut")
         # a terminator issued from a trigger must not race with writes / terminators from other triggers
         for y in self.kinds:
-            src_term = set(c for c, b, a in self.trigs if a[0] in ("hclose", "pclose") and a[1] == y)
-            src_any = set(c for c, b, a in self.trigs if a[0] in ("hclose", "pclose", "write") and a[1] == y)
+            src_term = set(c for c, b, a in self.trigs if a[0] in ("hclose", "pclose", "reset") and a[1] == y)
+            src_any = set(c for c, b, a in self.trigs if a[0] in ("hclose", "pclose", "reset", "write") and a[1] == y)
             if src_term and len(src_any) > 1:
                 f.add("term-race")
         if len(self.kinds) > max(self.hints, 1) and self.hints >= 1:
@@ -199,7 +367,7 @@ def _act(w):
             return None
         k = _int(w[2], -1)
         return ("write", y, k) if 0 <= k <= 4096 else None
-    if w[0] in ("hclose", "pclose", "add", "shut"):
+    if w[0] in ("hclose", "pclose", "add", "shut", "reset"):
         return (w[0], y)
     return None
 
@@ -214,7 +382,7 @@ def _astr(a):
 KINDS = ("pipe", "unix", "tcp")
 
 
-def _gen_S(rng, name, nmax, cls="S"):
+def _gen_S(rng, name, nmax, cls="S", parts=False):
     n = rng.range(1, nmax)
     ids = list(range(1, n + 1))
     kinds = {i: rng.choice(KINDS) for i in ids}
@@ -278,11 +446,20 @@ def _gen_S(rng, name, nmax, cls="S"):
     for y in ids:
         if W.get(y, 0) > 0 and rng.chance(1, 4):
             trigs.append((y, W[y] + rng.choice([0, 0, 0, 5]), ("shut", y)))
+    # some socket peers RESET the connection instead of closing it (read error behind the pending data)
+    rr = rng.fork("reset")
+    if rr.chance(1, 3):
+        def rs(a):
+            return ("reset", a[1]) if a[0] == "pclose" and kinds[a[1]] != "pipe" and rr.chance(1, 2) else a
+        phases = [[rs(a) for a in p] for p in phases]
+        trigs = [(c, b, rs(a)) for c, b, a in trigs]
+    if parts:
+        return hints, pool, kinds, phases, trigs
     return _mk(name, hints, pool, cls, kinds, phases, trigs)
 
 
-def _mk(name, hints, pool, cls, kinds, phases, trigs):
-    lines = ["cfg hints=%d pool=%d cls=%s" % (hints, pool, cls)]
+def _mk(name, hints, pool, cls, kinds, phases, trigs, tphases=None):
+    lines = ["cfg hints=%d pool=%d cls=%s%s" % (hints, pool, cls, " timer=1" if tphases is not None else "")]
     for i in sorted(kinds):
         lines.append("ctx %d %s" % (i, kinds[i]))
     for k, p in enumerate(phases):
@@ -292,6 +469,10 @@ def _mk(name, hints, pool, cls, kinds, phases, trigs):
             lines.append("do " + _astr(a))
     for c, b, a in trigs:
         lines.append("on %d %d %s" % (c, b, _astr(a)))
+    for p in tphases or []:
+        lines.append("tphase")
+        for a in p:
+            lines.append("tdo " + _astr(a))
     return V.Case(name, lines, {"cls": cls})
 
 
@@ -336,6 +517,19 @@ def _gen_C(rng, name, nmax):
     return c
 
 
+def _gen_C0(rng, name):
+    """capacity with hints_max_fd < 1: the default of 8 applies (poll refuses the contexts beyond it)"""
+    n = rng.range(9, 14)
+    ids = list(range(1, n + 1))
+    kinds = {i: rng.choice(KINDS) for i in ids}
+    ph0 = [("add", y) for y in rng.shuffle(ids)]
+    for _ in range(rng.range(1, 6)):
+        ph0.append(("write", rng.choice(ids), rng.range(1, 40)))
+    ph1 = [("write", rng.choice(ids), rng.range(1, 40)) for _ in range(rng.range(0, 4))]
+    ph1 += [("pclose", y) for y in ids if rng.chance(1, 4)]
+    return _mk(name, rng.choice([0, 0, -1]), rng.below(2), "C", kinds, [ph0, ph1], [])
+
+
 def _gen_R(rng, name, nmax):
     """unrestricted: every action from every place"""
     n = rng.range(1, nmax)
@@ -357,7 +551,7 @@ def _gen_R(rng, name, nmax):
         if r < 15:
             return ("add", y)
         if r < 17:
-            return ("shut", y)
+            return ("shut", y) if rng.chance(2, 3) else ("reset", y)
         if r < 19 or in_phase0:
             return ("wake",)
         return ("exit",)
@@ -369,6 +563,111 @@ def _gen_R(rng, name, nmax):
             phases[k].append(ract(k == 0))
     trigs = [(rng.choice(ids), rng.range(0, 60), ract()) for _ in range(rng.range(0, 3 * n + 2))]
     return _mk(name, hints, rng.below(2), "R", kinds, phases, trigs)
+
+
+def _gen_T(rng, name, nmax):
+    """timer-driven loops (class T): an S script whose idle phases become TIMER phases - the loop runs with a timer of
+    interval 0 (a tick after every pass, kernel calls returning n = 0 included), the k-th tick runs the k-th timer
+    phase and the tick after the last one requests exit.  Before every non-empty timer phase, and before the exit,
+    enough empty ticks are left for the loop to become quiescent (a trigger chain has at most #triggers links, and the
+    poll back-end skips a ready slot at most once per closed context), so the S clauses (every byte delivered,
+    terminated => closed, agreement) apply; a timer phase that runs BEFORE quiescence races with the passes (which
+    contexts a pass reads depends on the back-end's visit order): those scripts are class R (_gen_TR)."""
+    hints, pool, kinds, phases, trigs = _gen_S(rng, name, nmax, cls="T", parts=True)
+    pad = len(trigs) + len(kinds) + 3
+    tph = []
+    for p in phases[1:]:
+        tph += [[] for _ in range(pad + rng.below(3))]      # quiescence first (ticks after kernel calls with n = 0)
+        tph.append(p)
+    tph += [[] for _ in range(pad)]
+    return _mk(name, hints, pool, "T", kinds, [phases[0]], trigs, tph)
+
+
+def _gen_TR(rng, name, nmax):
+    """unrestricted timer script (class R): every action from every place, timer phases racing with the passes"""
+    c = _gen_R(rng, name, nmax)
+    sc = Script(c.lines)
+    tph = []
+    for _ in range(rng.range(0, 5)):
+        p = []
+        for _ in range(rng.range(0, 3)):
+            r = rng.below(10)
+            y = rng.choice(sorted(sc.kinds))
+            p.append(("write", y, rng.range(0, 40)) if r < 4 else ("pclose", y) if r < 5 else ("reset", y) if r < 6
+                     else ("hclose", y) if r < 7 else ("add", y) if r < 8 else ("shut", y) if r < 9 else
+                     (("exit",) if rng.chance(1, 3) else ("wake",)))
+        tph.append(p)
+    return _mk(name, sc.hints, sc.pool, "R", sc.kinds, [sc.phases[0]], sc.trigs, tph)
+
+
+CB_LETTERS = "rcwxet"
+
+
+def _gen_E(rng, name, mask):
+    """edge scenario (class E, monitor-only): the callbacks whose bit is set in `mask` are left NULL; refused
+    registrations (regular file on epoll, second context on a registered descriptor on epoll, foreign thread)"""
+    nocb = "".join(c for k, c in enumerate(CB_LETTERS) if mask & (1 << k)) or "-"
+    n = rng.range(1, 5)
+    prerun = "t" in nocb
+    if prerun:
+        closed = (1 << rng.below(n)) if rng.chance(2, 3) else 0       # one pass: at most one IN+HUP descriptor
+    else:
+        closed = rng.below(1 << n)
+    data = rng.below(1 << n)
+    return V.Case(name, ["edge nocb=%s n=%d closed=%d data=%d ticks=%d file=%d dup=%d foreign=%d hints=%d pool=%d" % (
+        nocb, n, closed, data, n + 2 + rng.below(3), rng.below(2), rng.below(2), rng.below(2),
+        n + 4 + rng.below(4), rng.below(2))], {"cls": "E"})
+
+
+def _gen_P(rng, name, nmax, doubles=1):
+    """exit requested before muggle_evloop_run (class P): one phase, no triggers, no scripted shutdown; contexts with
+    pending input, half-closed / closed peers, idle ones; at most `doubles` registered descriptors report input and
+    hang-up together when the loop starts (unix socket with a closed peer; pipe with data and a closed writer).
+    With doubles <= 1 the three back-ends must perform exactly one pass and agree (evl_prerun_exit_agree); with more
+    the poll back-end may stop above a ready slot (evl_prerun_exit_double_refuted: class X, known finding)."""
+    n = rng.range(1, nmax)
+    ids = list(range(1, n + 1))
+    kinds = {i: rng.choice(KINDS) for i in ids}
+    hints = rng.choice([n, n, n + 2, 0 if n <= 8 else n])       # 0: the default of 8 (hints_max_fd < 1)
+    acts = []
+    order = rng.shuffle(ids)
+    reg = [y for y in order if rng.chance(5, 6)]
+    for y in reg:
+        acts.append(("add", y))
+    want_double = set(rng.shuffle(reg)[:doubles]) if reg and rng.chance(2, 3) else set()
+    for y in ids:
+        k = kinds[y]
+        if y in want_double and k != "tcp":
+            if k == "unix":
+                if rng.chance(1, 2):
+                    acts.append(("write", y, rng.range(1, 40)))
+                acts.append(("pclose", y))
+            else:
+                acts.append(("write", y, rng.range(1, 40)))
+                acts.append((rng.choice(["hclose", "pclose"]), y))
+            continue
+        r = rng.below(6)
+        if r <= 2:
+            acts.append(("write", y, rng.range(1, 40)))
+            if rng.chance(1, 3):
+                acts.append(("write", y, rng.range(1, 40)))
+        if k == "pipe":
+            if r >= 3 and rng.chance(1, 2):
+                acts.append((rng.choice(["hclose", "pclose"]), y))      # closed writer without data: hang-up only
+        elif k == "unix":
+            if rng.chance(1, 3):
+                acts.append(("hclose", y))                              # half-close: readable EOF, no hang-up
+        else:
+            if rng.chance(1, 3):
+                acts.append((rng.choice(["hclose", "pclose"]), y))      # tcp: EOF is readable only
+    # late registrations and the exit request anywhere in the phase (everything runs before muggle_evloop_run)
+    body = [a for a in acts if a[0] == "add"] + [a for a in acts if a[0] != "add"]
+    pos = rng.range(0, len(body))
+    body.insert(pos, ("exit",))
+    if rng.chance(1, 4):
+        body.append(("wake",))
+    cls = "P" if doubles <= 1 else "X"
+    return _mk(name, hints, rng.below(2), cls, kinds, [body], [])
 
 
 def corpus_cases(ctx):
@@ -419,10 +718,26 @@ def generate(rng, tier):
             keep.append(ln)
         c.lines = keep
         cases.append(c)
+    # exit requested before run (evl_prerun_exit_agree); a few with two descriptors reporting input and hang-up
+    # together (poll's double decrement: evl_prerun_exit_double_refuted, class X)
+    for i in range(40 if quick else 500):
+        cases.append(_gen_P(rng.fork("P%d" % i), "P-%d" % i, 16 if i % 3 == 0 else (6 if i % 3 == 1 else 3)))
+    for i in range(10 if quick else 100):
+        cases.append(_gen_P(rng.fork("PD%d" % i), "PD-%d" % i, 8 if i % 2 else 4, doubles=3))
+    # timer-driven loops: class T (S clauses apply), and unrestricted ones (life-cycle and model tie only)
+    for i in range(30 if quick else 400):
+        cases.append(_gen_T(rng.fork("TM%d" % i), "TM-%d" % i, 6 if i % 2 else 3))
+    for i in range(20 if quick else 300):
+        cases.append(_gen_TR(rng.fork("TR%d" % i), "TR-%d" % i, 6 if i % 2 else 3))
+    # NULL-callback matrix (all 64 subsets of the six callbacks) x refused registrations: monitor-only edge scenarios
+    for i in range(64 if quick else 640):
+        cases.append(_gen_E(rng.fork("E%d" % i), "E-%d" % i, i % 64))
     for i in range(nX):
         cases.append(_gen_X(rng.fork("X%d" % i), "X-%d" % i, 16 if i % 2 else 4))
     for i in range(nC):
         cases.append(_gen_C(rng.fork("C%d" % i), "C-%d" % i, 16 if i % 2 else 5))
+    for i in range(6 if quick else 60):
+        cases.append(_gen_C0(rng.fork("C0%d" % i), "C0-%d" % i))
     for i in range(nR):
         cases.append(_gen_R(rng.fork("R%d" % i), "R-%d" % i, 16 if i % 3 == 0 else 5))
     return cases
@@ -433,6 +748,13 @@ def search(rng, diverging, tier):
     for i in range(150):
         out.append(_gen_R(rng.fork("sR%d" % i), "search-R-%d" % i, 6))
         out.append(_gen_S(rng.fork("sS%d" % i), "search-S-%d" % i, 6))
+        if i % 3 == 0:
+            out.append(_gen_P(rng.fork("sP%d" % i), "search-P-%d" % i, 5))
+        if i % 2 == 0:
+            out.append(_gen_E(rng.fork("sE%d" % i), "search-E-%d" % i, i % 64))
+        if i % 3 == 1:
+            out.append(_gen_T(rng.fork("sT%d" % i), "search-T-%d" % i, 4))
+            out.append(_gen_TR(rng.fork("sTR%d" % i), "search-TR-%d" % i, 4))
     return out
 
 
@@ -444,13 +766,162 @@ def model_cases(cases, impl_results):
     for c in cases:
         r = impl_results.get(c.name)
         lines = list(c.lines)
-        if r and r.get("lines"):
+        if r and r.get("lines") and not _is_edge(c):
             lines.append("LOG")
             for ln in r["lines"]:
                 if ln.startswith("B ") or ln.startswith("K "):
                     lines.append(ln)
         out.append(V.Case(c.name, lines, c.meta))
     return out
+
+
+def _is_edge(case):
+    return bool(case.lines) and case.lines[0].startswith("edge")
+
+
+def canon(lines):
+    """edge scenarios have no model run: both drivers announce them with the line EDGE"""
+    return ["EDGE"] if lines and lines[0] == "EDGE" else lines
+
+
+# ----------------------------------------------------------------------------------------------
+# edge scenarios: NULL-callback matrix and refused registrations (oracle independent of the Coq model)
+
+def _edge_monitor(case, lines):
+    hdr = case.lines[0]
+
+    def num(key, d):
+        m = re.search(r" %s=(-?\d+)" % key, hdr)
+        return int(m.group(1)) if m else d
+    m = re.search(r" nocb=(\S+)", hdr)
+    nocb = m.group(1) if m else "-"
+    has = lambda c: c not in nocb                                   # noqa: E731
+    n = min(max(num("n", 1), 1), 8)
+    closed, data, ticks = num("closed", 0), num("data", 0), min(max(num("ticks", 4), 1), 64)
+    fil, dup, foreign = num("file", 0) == 1, num("dup", 0) == 1, num("foreign", 0) == 1
+    prerun = not has("t")
+    if not lines or lines[0] != "EDGE":
+        return "edge: driver did not recognise the scenario"
+    secs = _sections(lines[1:])
+    for be in BACKENDS:
+        if be not in secs:
+            return "no output for back-end %s" % be
+        L, rc, tag = [], {}, {}
+        cnt = {}
+        order = []
+        ks = []
+        exit_at = None
+        off = {}
+        for k, ln in enumerate(secs[be]):
+            w = ln.split()
+            if not w:
+                continue
+            t = w[0]
+            if t in ("HARNESS-ERROR", "new"):
+                return "edge %s: %s" % (be, ln)
+            if t == "K":
+                if len(w) > 1 and w[1] in ("runaway", "stuck"):
+                    return "edge: the %s loop never exits (%s)" % (be, w[1])
+                if exit_at is not None and not prerun:
+                    return "edge: %s loop made another kernel call after exit was requested from the timer callback" % be
+                ids = [_int(x, -9) for x in _field(ln, "in").split(",") if x != ""]
+                if -1 in ids:
+                    return "edge: %s handed a descriptor to the kernel that belongs to no registered context" % be
+                ks.append(ids)
+            elif t == "A":
+                rc[_int(w[1], -1)] = _int(w[2][3:], 99)
+                tag[_int(w[1], -1)] = w[3] if len(w) > 3 else ""
+            elif t == "a":
+                exit_at = k
+            elif t in ("r", "c", "x"):
+                y = _int(w[1], -1)
+                cnt[(t, y)] = cnt.get((t, y), 0) + 1
+                order.append((t, y))
+                if t == "r" and cnt.get(("c", y)):
+                    return "edge %s: read callback for context %d after its close callback" % (be, y)
+                if t != "r" and ks == []:
+                    return "edge %s: %s callback before the first kernel call" % (be, t)
+            elif t in ("e", "w", "t"):
+                cnt[t] = cnt.get(t, 0) + 1
+                order.append((t, 0))
+            elif t == "L":
+                L.append(_int(w[1], -1))
+            elif t == "F":
+                off[_int(w[1], -1)] = _int(_field(ln, "off"), -1)
+            elif t != "Q":
+                return "edge %s: unexpected line %r" % (be, ln)
+        for t, letter in (("r", "r"), ("c", "c"), ("x", "x")):
+            if not has(letter) and any(k[0] == t for k in cnt if isinstance(k, tuple)):
+                return "edge %s: a %s callback ran although none was installed" % (be, t)
+        for t in ("e", "w", "t"):
+            if not has(t) and cnt.get(t):
+                return "edge %s: a %s callback ran although none was installed" % (be, t)
+        if cnt.get("e", 0) != (1 if has("e") else 0):
+            return "edge %s: exit callback ran %d times" % (be, cnt.get("e", 0))
+        if has("e") and order and order[-1] != ("e", 0):
+            return "edge %s: callback after the exit callback" % be
+        if has("t") and cnt.get("t", 0) != ticks:
+            return "edge: the %s loop ran %d timer ticks, exit was requested at tick %d" % (be, cnt.get("t", 0), ticks)
+        if prerun and len(ks) != 1:
+            return "edge: exit requested before run, the %s loop made %d kernel calls (exactly one pass is due)" % (be, len(ks))
+        pop = bin(closed & ((1 << n) - 1)).count("1")
+        if be == "poll" and prerun and has("w") and pop >= 1 and cnt.get("w", 0) == 0:
+            pass        # poll counts a descriptor reporting input and hang-up twice and may stop above slot 0 (known)
+        elif cnt.get("w", 0) != (1 if prerun and has("w") else 0):
+            return "edge %s: wake callback ran %d times (the only wake-up is the one of an exit requested before run)" % (be, cnt.get("w", 0))
+        if len(set(L)) != len(L):
+            return "edge %s: ctx_list holds a context twice after run: %s" % (be, L)
+        ids = sorted(rc)
+        for y in ids:
+            c, x = cnt.get(("c", y), 0), cnt.get(("x", y), 0)
+            if c > 1 or x > 1 or (c and x):
+                return "edge %s: context %d got %d close and %d clear callbacks" % (be, y, c, x)
+            if c and y in L:
+                return "edge %s: context %d got its close callback but is still in ctx_list" % (be, y)
+            if has("x") and (x == 1) != (y in L):
+                return "edge %s: context %d: clear callback ran %d times, in ctx_list at exit: %s" % (be, y, x, y in L)
+            refused = rc[y] != 0
+            if refused and (y in L or c or x or cnt.get(("r", y))):
+                return ("edge: %s refused context %d (%s) but did not roll the registration back: in ctx_list at exit %s, "
+                        "callbacks r=%d c=%d x=%d" % (be, y, tag.get(y) or "plain", y in L, cnt.get(("r", y), 0), c, x))
+            if refused and any(y in k for k in ks):
+                return "edge: %s refused context %d but handed its descriptor to the kernel" % (be, y)
+        # what must be refused / accepted
+        for y in range(1, n + 1):
+            if rc.get(y) != 0:
+                return "edge: %s refused context %d although the table has room (rc=%s)" % (be, y, rc.get(y))
+        if foreign and rc.get(n + 3, 0) == 0:
+            return "edge: %s accepted a registration from a foreign thread" % be
+        if fil and be == "epoll" and rc.get(n + 1, 0) == 0:
+            return "edge: epoll accepted a regular file"
+        if fil and be != "epoll" and rc.get(n + 1) != 0:
+            return "edge: %s refused a regular file (rc=%s)" % (be, rc.get(n + 1))
+        if dup and be == "epoll" and rc.get(n + 2, 0) == 0:
+            return "edge: epoll accepted a second context on a registered descriptor"
+        # semantics with a read callback: input delivered, hung-up contexts removed (with or without close callback)
+        pop = bin(closed & ((1 << n) - 1)).count("1")
+        settled = has("r") and ((prerun and not (be == "poll" and pop > 1)) or (not prerun and ticks >= n + 2))
+        if settled:
+            for y in range(1, n + 1):
+                want = 5 if data & (1 << (y - 1)) else 0
+                if off.get(y) != want:
+                    return "edge: %s offered context %d %s of its %d pending bytes" % (be, y, off.get(y), want)
+                gone = bool(closed & (1 << (y - 1)))
+                if gone and y in L:
+                    return ("edge: context %d (peer closed, end of file read) is still in the %s loop's ctx_list at exit "
+                            "[close callback installed: %s]" % (y, be, has("c")))
+                if gone and has("c") and not cnt.get(("c", y)):
+                    return "edge: %s removed context %d without its close callback" % (be, y)
+                if not gone and y not in L:
+                    return "edge: %s dropped context %d whose peer is open" % (be, y)
+            if fil and be != "epoll" and (n + 1) in L:
+                return "edge: regular file context (end of file at once) still in the %s loop's ctx_list" % be
+            if not prerun and ks:
+                last = set(ks[-1])
+                if last != set(L) | {0}:
+                    return ("edge: the last table the %s loop handed to the kernel holds contexts %s, its ctx_list holds %s "
+                            "[close callback installed: %s]" % (be, sorted(last - {0}), sorted(L), has("c")))
+    return None
 
 
 # ----------------------------------------------------------------------------------------------
@@ -497,6 +968,11 @@ def _lifecycle(be, lines, sc, info):
     seen_exit_cb = 0
     pend = None                                # (reported list, poll early-break excuse) of the current pass
     read_in_pass = set()
+    nk = 0                                     # kernel calls so far
+    prerun_exit = False                        # exit requested before muggle_evloop_run (no kernel call yet)
+    ticks_since_k = 0                          # timer ticks since the last kernel call
+    xpend = set()                              # contexts shut down from a foreign callback while input was undelivered
+    wskip = set()                              # contexts a write to which was skipped after their foreign shutdown
 
     def end_pass():
         if pend is None:
@@ -515,6 +991,23 @@ def _lifecycle(be, lines, sc, info):
                 return "read callback missing: context %d was reported readable to the %s loop while registered but got no read callback in that pass" % (x, be)
         return None
     reg_at_pass = set()
+
+    def no_pass():
+        """exit requested before run: muggle_evloop_exit has woken the loop up, so the first kernel call returns and
+        the loop owes the registered contexts one dispatch pass before it leaves"""
+        if not (prerun_exit and nk == 0):
+            return None
+        for y in sorted(state):
+            if state[y] == "reg" and (written[y] > offered[y] or term[y]):
+                return ("read callback missing: exit was requested before run and the %s loop left without the dispatch pass that "
+                        "the pending wake-up triggers; registered context %d had %d undelivered bytes%s" % (
+                            be, y, written[y] - offered[y], " and a terminated peer" if term[y] else ""))
+        return None
+
+    def no_tick():
+        if sc.timer and nk > 0 and ticks_since_k != 1:
+            return "timer: the %s loop left after a pass without the timer tick that is due after every pass" % be
+        return None
     for k, ln in enumerate(lines):
         w = ln.split()
         if not w:
@@ -528,8 +1021,15 @@ def _lifecycle(be, lines, sc, info):
             e = end_pass()
             if e:
                 return e
-            if exit_req:
+            if sc.timer and nk > 0 and ticks_since_k != 1:
+                return ("timer: interval 0 and a timer callback are set, but the %s loop went from one kernel call to the next "
+                        "with %d timer ticks in between (exactly one is due after every pass, also after a kernel call "
+                        "that reported nothing)" % (be, ticks_since_k))
+            ticks_since_k = 0
+            if exit_req and not (prerun_exit and nk == 0):
+                # an exit requested before run is served by the ONE pass that its wake-up triggers
                 return "%s loop made another kernel call after exit was requested" % be
+            nk += 1
             if phase != "run":
                 return "%s: kernel call after the clear/exit callbacks" % be
             rep = _parse_out(_field(ln, "out"))
@@ -548,7 +1048,9 @@ def _lifecycle(be, lines, sc, info):
             if kind in ("wake", "exit"):
                 if kind == "exit" and res == "ok":
                     exit_req = True
-                    if cur is None or cur[0] == "r":
+                    if cur is None and nk == 0:
+                        prerun_exit = True                  # before run: not racing with anything
+                    elif cur is None or cur[0] == "r":
                         exit_raced = True
                     info.setdefault("_exit_cb", []).append((cur, k))
                 continue
@@ -557,19 +1059,33 @@ def _lifecycle(be, lines, sc, info):
                 return "%s: action on undeclared context in trace: %s" % (be, ln)
             if kind == "write" and res == "ok":
                 written[y] += _int(w[3], 0)
-            elif kind in ("hclose", "pclose") and res == "ok":
+            elif kind == "write" and res == "skip" and y in xshut:
+                wskip.add(y)                    # a write that came after the foreign shutdown of its target
+            elif kind in ("hclose", "pclose", "reset") and res == "ok":
                 term[y] = True
             elif kind == "add":
+                # documented capacity: the poll back-end holds hints_max_fd contexts (8 when hints_max_fd < 1), a
+                # closed context frees its slot; select and epoll have no limit (the node pool grows)
+                cap = sc.hints if sc.hints >= 1 else 8
+                nreg = sum(1 for z in state if state[z] == "reg")
                 if res == "ok":
                     if state[y] != "new":
                         return "%s: add of context %d accepted twice" % (be, y)
+                    if be == "poll" and nreg >= cap:
+                        return ("capacity: poll accepted context %d although %d contexts are registered and hints_max_fd=%d "
+                                "gives room for %d" % (y, nreg, sc.hints, cap))
                     state[y] = "reg"
                 elif res == "rej":
+                    if be != "poll" or nreg < cap:
+                        return "capacity: %s refused context %d with %d contexts registered (hints_max_fd=%d: room for %s)" % (
+                            be, y, nreg, sc.hints, cap if be == "poll" else "any number")
                     state[y] = "rej"
             elif kind == "shut" and res == "ok":
                 term[y] = True
                 if cur is None or cur != ("r", y):
                     xshut.add(y)
+                    if written[y] > offered[y]:
+                        xpend.add(y)
             continue
         if phase == "done":
             if t == "F":
@@ -622,10 +1138,25 @@ def _lifecycle(be, lines, sc, info):
             cur, cur_actions = ("w",), 0
             if phase != "run":
                 return "%s: wake callback after the loop finished" % be
+        elif t == "t":
+            cur, cur_actions = ("t",), 0
+            if not sc.timer:
+                return "%s: timer callback although no timer was set" % be
+            if phase != "run":
+                return "%s: timer callback after the loop finished" % be
+            if nk == 0:
+                return "%s: timer callback before the first kernel call" % be
+            e = end_pass()
+            if e:
+                return e
+            pend = None
+            ticks_since_k += 1
+            if ticks_since_k > 1:
+                return "%s: two timer ticks after one kernel call" % be
         elif t == "x":
             x = _int(w[1], -1)
             if phase == "run":
-                e = end_pass()
+                e = end_pass() or no_pass() or no_tick()
                 if e:
                     return e
                 pend = None
@@ -641,7 +1172,7 @@ def _lifecycle(be, lines, sc, info):
             state[x] = "cleared"
         elif t == "e":
             if phase == "run":
-                e = end_pass()
+                e = end_pass() or no_pass() or no_tick()
                 if e:
                     return e
                 pend = None
@@ -672,6 +1203,9 @@ def _lifecycle(be, lines, sc, info):
             if not prev_is_w or next_is_a:
                 exit_raced = True
     info["_x"] = xshut
+    info["_xpend"] = xpend
+    info["_wskip"] = wskip
+    info["_prerun_exit"] = prerun_exit
     info["_exit_raced"] = exit_raced
     info["_written"] = written
     info["_term"] = term
@@ -680,6 +1214,8 @@ def _lifecycle(be, lines, sc, info):
 
 
 def monitor(case, lines):
+    if _is_edge(case):
+        return _edge_monitor(case, lines)
     sc = Script(case.lines)
     secs = _sections(lines)
     infos = {}
@@ -694,9 +1230,15 @@ def monitor(case, lines):
     cls = sc.cls
     feats = sc.features()
     # inside S every byte written reaches the read callback and the outcome is determined by the script
-    if cls == "S":
-        if feats:
-            return "generator error: script tagged S has features %s" % sorted(feats)
+    if cls == "P" and not any(a[0] == "exit" for a in sc.phases[0]):
+        cls = "S"                      # (a shrunk P script) without the exit request it is an ordinary S script
+    if cls == "T" and not sc.timer:
+        cls = "S"
+    if cls == "T" and not _t_padded(sc):
+        cls = "R"                      # (a shrunk T script) timer phases racing with the passes: life-cycle only
+    if cls in ("S", "P", "T"):
+        if feats - ({"exit"} if cls == "P" else set()):
+            return "generator error: script tagged %s has features %s" % (cls, sorted(feats))
         for be in BACKENDS:
             inf = infos[be]
             for y in sorted(sc.kinds):
@@ -712,7 +1254,7 @@ def monitor(case, lines):
                     return "outcome: %s left context %d %s, expected %s (peer terminated or self shutdown: %s)" % (
                         be, y, end, want, inf["_term"][y])
     # agreement
-    if cls in ("S", "X", "C"):
+    if cls in ("S", "X", "C", "P", "T"):
         group = BACKENDS if cls != "C" else ("select", "epoll")
         bad = []
         for y in sorted(sc.kinds):
@@ -726,31 +1268,111 @@ def monitor(case, lines):
                 xs |= infos[be]["_x"]
                 raced = raced or infos[be]["_exit_raced"]
             y = bad[0]
-            return "agreement: contexts %s differ between back-ends; context %d: %s [cross-shutdown executed on: %s; racing exit: %s]" % (
+            return "agreement: contexts %s differ between back-ends; context %d: %s [cross-shutdown executed on: %s; racing exit: %s] [known-class evidence: %s]" % (
                 ",".join(map(str, bad)), y,
                 " ".join("%s=(%d bytes,%s)" % (be, infos[be][y][0], infos[be][y][1]) for be in BACKENDS),
-                ",".join(map(str, sorted(xs))) or "-", "yes" if raced else "no")
+                ",".join(map(str, sorted(xs))) or "-", "yes" if raced else "no",
+                _known_evidence(sc, infos, bad) or "none")
+    return None
+
+
+def _t_padded(sc):
+    """class T: every non-empty timer phase, and the exit after the last one, comes after enough empty ticks for the
+    loop to be quiescent (#triggers + #contexts + 3, see _gen_T)"""
+    pad = len(sc.trigs) + len(sc.kinds) + 3
+    run = 0
+    for p in sc.tphases:
+        if p:
+            if run < pad:
+                return False
+            run = 0
+        else:
+            run += 1
+    return run >= pad
+
+
+def _known_evidence(sc, infos, bad):
+    """Is this divergence one of the GENUINE disagreements of the unchanged code?  Returns a short text naming the
+    pattern for every differing context, or None.  The patterns (each differing context must match one):
+      G1  cross-shutdown, closed before the input was offered: the context was shut down from a foreign callback
+          (another context's read callback or the wake callback, possibly before it was registered) while input for
+          it was undelivered; the back-ends that reach it before the kernel reports it readable (select: later in
+          the same pass, also a context added during the pass; poll: a lower slot of the same pass) close it at
+          once; and where the visit order puts the shutdown before a trigger that writes to the context, that write
+          is skipped.  Evidence required: every back-end that offers FEWER bytes than the others either had
+          undelivered input at the shutdown and ends `closed`, or delivered everything that was written to the
+          context in that back-end while a write to it was skipped after the shutdown; and the back-ends offering the
+          most agree with each other on the context;
+      G2  cross-shutdown of a pipe context (flag only, no descriptor event): same bytes everywhere, select closes it,
+          epoll (and possibly poll) leave it to the clear callback;
+      G3  downstream of a G1 context through triggers: the back-ends that delivered the G1 context's input in full
+          agree with each other on it;
+      G4  exit requested from a read callback (or a non-idle wake callback): in some back-end input for the context
+          (or its peer's termination) is undelivered when the loop leaves, or the context is downstream of such a one;
+      G5  exit requested before run with at least two registered descriptors reporting input and hang-up together:
+          poll (double decrement of n) is the outlier, select and epoll agree.
+    Anything else - a context unrelated to the shutdown / exit, a back-end losing bytes it had no pending shutdown
+    for, the full-delivery back-ends disagreeing - is NOT known and is reported."""
+    feats = sc.features()
+    if not feats or not feats <= {"xshut", "exit"}:
+        return None
+    sel, pol, epo = infos["select"], infos["poll"], infos["epoll"]
+    xs = sel["_x"] | pol["_x"] | epo["_x"]
+    g1 = {}
+    why = {}
+    for y in bad:
+        vals = {be: infos[be][y] for be in BACKENDS}
+        top = max(v[0] for v in vals.values())
+        less = [be for be in BACKENDS if vals[be][0] < top]
+        full = [be for be in BACKENDS if vals[be][0] == top]
+        if "xshut" in feats and y in xs and less and \
+                all((y in infos[be]["_xpend"] and vals[be][1] == "closed") or
+                    (y in infos[be]["_wskip"] and vals[be][0] == infos[be]["_written"][y]) for be in less) and \
+                all(vals[be] == vals[full[0]] for be in full):
+            g1[y] = set(less)
+            why[y] = "G1(" + "+".join(less) + " closed it first)"
+        elif "xshut" in feats and y in xs and sc.kinds.get(y) == "pipe" and \
+                vals["select"][0] == vals["poll"][0] == vals["epoll"][0] and \
+                vals["select"][1] == "closed" and vals["epoll"][1] == "cleared":
+            why[y] = "G2"
+    for y in bad:
+        if y in why:
+            continue
+        for z, less in g1.items():
+            full = [be for be in BACKENDS if be not in less]
+            if y in _downstream(sc, {z}) and all(infos[be][y] == infos[full[0]][y] for be in full):
+                why[y] = "G3(of %d)" % z
+                break
+    raced = any(infos[be]["_exit_raced"] for be in BACKENDS)
+    if "exit" in feats and raced:
+        und = set()
+        for y in sc.kinds:
+            for be in BACKENDS:
+                inf = infos[be]
+                if inf["_state"].get(y) in ("closed", "cleared") and (
+                        inf["_written"][y] > inf[y][0] or (inf["_term"][y] and inf[y][1] != "closed")):
+                    und.add(y)
+        reach = _downstream(sc, und) if und else set()
+        for y in bad:
+            if y not in why and y in reach:
+                why[y] = "G4"
+    if "exit" in feats and all(infos[be]["_prerun_exit"] for be in BACKENDS) and not sc.trigs:
+        for y in bad:
+            if y not in why and sel[y] == epo[y] and pol[y][0] <= sel[y][0] and \
+                    (pol["_written"][y] > pol[y][0] or (pol["_term"][y] and pol[y][1] != "closed")):
+                why[y] = "G5"
+    if all(y in why for y in bad):
+        return "cross-shutdown " + ",".join("%d:%s" % (y, why[y]) for y in bad)
     return None
 
 
 def known_class(case, failure_text):
-    """cross-shutdown: agreement failure caused by a context shut down from ANOTHER context's callback
-    (or the wake callback), or by exit requested from a callback, while input is still undelivered."""
+    """cross-shutdown: an agreement failure that matches, context by context, one of the genuine disagreements of
+    the unchanged code (see _known_evidence); the evidence is computed by the monitor from the three traces."""
     if not failure_text or not failure_text.startswith("agreement:"):
         return None
-    sc = Script(case.lines)
-    feats = sc.features()
-    if not feats or not feats <= {"xshut", "exit"}:
-        return None
-    m = re.search(r"contexts (\S+) differ.*\[cross-shutdown executed on: (\S+); racing exit: (\w+)\]", failure_text)
-    if not m:
-        return None
-    bad = set(_int(x, -1) for x in m.group(1).split(","))
-    xs = set() if m.group(2) == "-" else set(_int(x, -1) for x in m.group(2).split(","))
-    raced = m.group(3) == "yes"
-    if (xs & bad) or (xs and "xshut" in feats and _downstream(sc, xs) & bad) or (raced and "exit" in feats):
-        return "cross-shutdown"
-    return None
+    m = re.search(r"\[known-class evidence: (cross-shutdown) [^\]]*\]", failure_text)
+    return m.group(1) if m else None
 
 
 def _downstream(sc, srcs):
@@ -779,6 +1401,16 @@ def tally(dist, case, lines):
 
     def inc(k, n=1):
         dist[k] = dist.get(k, 0) + n
+    if _is_edge(case):
+        inc("class=E")
+        m = re.search(r" nocb=(\S+)", case.lines[0])
+        for c in (m.group(1) if m else "-"):
+            if c in CB_LETTERS:
+                inc("edge_null_cb_%s" % c)
+        for ln in lines:
+            if ln.startswith("A ") and " rc=0" not in ln:
+                inc("edge_refused_%s" % (ln.split()[3] if len(ln.split()) > 3 else "plain"))
+        return
     inc("class=%s" % sc.cls)
     if sc.cls == "S" and not sc.trigs:
         inc("class=S-flat")
@@ -798,6 +1430,8 @@ def tally(dist, case, lines):
             be = ln[2:]
         elif ln.startswith("K "):
             inc("cmp1_oracle_iterations_%s" % be)      # kernel reports fed to the model (bookkeeping comparison)
+            if ln.endswith(" n=0"):
+                inc("kernel_calls_reporting_nothing")
             if "idle=1" in ln:
                 inc("idle_wakeups")
         elif ln.startswith("Q "):
@@ -813,25 +1447,36 @@ def tally(dist, case, lines):
             inc("cb_clear")
         elif ln.startswith("w"):
             inc("cb_wake")
+        elif ln == "t":
+            inc("cb_timer")
 
 
 MANIFEST = {
     "level_text": ("Unbounded Coq theorems over an executable model transcribing the three back-end loop bodies "
                    "(select's fd-set rebuild while walking ctx_list, poll's reverse walk with swap-with-last and its "
                    "n accounting, epoll's EPOLLIN-else-ERR|HUP branch with edge-triggered registration), "
-                   "muggle_evloop_add_ctx and the clear/exit epilogue, with scripted callbacks and the kernel as an "
-                   "oracle: for every script, every oracle and every number of iterations each back-end closes a "
+                   "muggle_evloop_add_ctx, muggle_evloop_exit (which wakes the loop) and the clear/exit epilogue, with "
+                   "scripted callbacks (read triggers, idle phases, timer phases), connection resets and the kernel as "
+                   "an oracle: for every script, every oracle and every number of iterations each back-end closes a "
                    "context at most once, never calls back after close, clears exactly the still-registered contexts "
-                   "once, exits once, reads every context the kernel reported; add / capacity-reject / remove leave "
-                   "every other context's registration and data untouched; agreement of the back-ends is proved for the "
-                   "sub-class SWT of S (read-callback triggers that write to / half-close / close peers or wake the loop; "
-                   "everything else issued from idle phases) via a least-fixpoint specification, and refuted in general "
-                   "(known finding cross-shutdown).  Model tied to the code by running "
-                   "the real loops on real pipes / socket pairs / loopback TCP and feeding the logged kernel reports to "
-                   "the extracted model; independent life-cycle/accounting/agreement monitor."),
+                   "once, exits once, reads every context the kernel reported, ticks the timer after every pass; add / "
+                   "capacity-reject / remove leave every other context's registration and data untouched; an exit "
+                   "requested before run is served by exactly one pass; agreement of the back-ends is proved for the "
+                   "sub-class SWT of S (read-callback triggers that write to / half-close / close peers or wake the "
+                   "loop; everything else issued from idle phases) via a least-fixpoint specification and for the "
+                   "pre-run-exit class PRX, the boundary of SWT is characterised feature by feature with a witness of "
+                   "disagreement for 10 of 15 excluded features, and agreement is refuted in general (known finding "
+                   "cross-shutdown).  Two ties to the code: (1) the real loops run on real pipes / socket pairs / "
+                   "loopback TCP and the logged kernel reports are fed to the extracted model (callbacks, tables handed "
+                   "to the kernel, kernel predictions compared line by line); (2) on every run the loop bodies, add_ctx, "
+                   "init and muggle_ev_ctx_read are translated from the C text into Gallina terms that are proved equal "
+                   "to the reference decisions, which are proved to be the model's steps.  Independent "
+                   "life-cycle/accounting/agreement monitor; monitor-only NULL-callback and refused-registration "
+                   "scenarios."),
     "design_ref": "DESIGN.md section 6 / C13, section 5 row C13",
     "level_note": ("Environment is an oracle: kernel readiness and epoll ready-list order are modelled and compared with the "
                    "log on every run, not verified.  Agreement holds only inside the confluent class S; outside it the "
-                   "known finding cross-shutdown applies."),
-    "technique": "Coq invariants over a transcribed dispatch model + oracle-driven differential run against the real loops + trace monitor",
+                   "known finding cross-shutdown applies (accepted only with per-context evidence).  Timers: interval 0 "
+                   "only in executed runs."),
+    "technique": "Coq invariants over a transcribed dispatch model + C-to-Gallina translator obligations + oracle-driven differential run against the real loops + trace monitor",
 }
